@@ -39,6 +39,38 @@ func (p *infoPayload) EventId() string  { return p.id }
 func (p *infoPayload) HmacSalt() []byte { return p.salt }
 func (p *infoPayload) HmacInfo() []byte { return p.info }
 
+// tagPayload / infoTagPayload additionally hold a Taggable map whose pointer tags demand encrypt and hmac.
+type tagPayload struct {
+	KPayload
+	Attrs TMap
+}
+
+type infoTagPayload struct {
+	KPayload
+	Attrs TMap
+	id    string
+	salt  []byte
+	info  []byte
+}
+
+func (p *infoTagPayload) EventId() string  { return p.id }
+func (p *infoTagPayload) HmacSalt() []byte { return p.salt }
+func (p *infoTagPayload) HmacInfo() []byte { return p.info }
+
+var attrCtr int
+
+func genAttrs(r *rt.Rand) (TMap, string, string) {
+	attrCtr++
+	id := fmt.Sprintf("attrs-%d", attrCtr)
+	e, h := string(genBytesVal(r))+"E", string(genBytesVal(r))+"H"
+	tagRegistry.Store(id, []encrypt.PointerTag{
+		{Pointer: "/__id", Classification: encrypt.PublicClassification},
+		{Pointer: "/e", Classification: encrypt.SensitiveClassification, Filter: encrypt.EncryptOperation},
+		{Pointer: "/h", Classification: encrypt.SensitiveClassification, Filter: encrypt.HmacSha256Operation},
+	})
+	return TMap{"__id": id, "e": e, "h": h}, e, h
+}
+
 // config in force
 type kcfg struct {
 	n    int
@@ -207,6 +239,12 @@ func TestC16(t *testing.T) {
 				withInfo := cr.Intn(2) == 0
 				desc := "event(plain)"
 				emptyID := false
+				withAttrs := cr.Intn(3) == 0
+				var attrs TMap
+				var attrE, attrH string
+				if withAttrs {
+					attrs, attrE, attrH = genAttrs(cr)
+				}
 				if withInfo {
 					ip := &infoPayload{KPayload: orig, id: fmt.Sprintf("ev-%d-%d", i, cr.Intn(3)), salt: optBytes(cr, "esalt"), info: optBytes(cr, "einfo")}
 					if cr.Intn(12) == 0 {
@@ -214,14 +252,21 @@ func TestC16(t *testing.T) {
 						emptyID = true
 					}
 					payload = ip
+					if withAttrs {
+						payload = &infoTagPayload{KPayload: orig, Attrs: attrs, id: ip.id, salt: ip.salt, info: ip.info}
+					}
 					encKey = cryp.EventKey(cur.key, ip.id)
 					hmacKey = encKey
 					salt, info = effective(ip.salt, cur.salt), effective(ip.info, cur.info)
 					others = append(others, cur.key, cryp.EventKey(cur.key, ip.id+"x"))
-					desc = fmt.Sprintf("event(id=%q salt=%q info=%q)", ip.id, ip.salt, ip.info)
+					desc = fmt.Sprintf("event(id=%q salt=%q info=%q attrs=%v)", ip.id, ip.salt, ip.info, withAttrs)
 				} else {
 					cp := orig
 					payload = &cp
+					if withAttrs {
+						payload = &tagPayload{KPayload: orig, Attrs: attrs}
+						desc = "event(plain, attrs)"
+					}
 				}
 				others = append(others, oldKeys...)
 				out, err := f.Process(ctx, &eventlogger.Event{Type: "t", Payload: payload})
@@ -240,17 +285,34 @@ func TestC16(t *testing.T) {
 					continue
 				}
 				var got KPayload
+				var gotAttrs TMap
 				switch p := out.Payload.(type) {
 				case *KPayload:
 					got = *p
 				case *infoPayload:
 					got = p.KPayload
+				case *tagPayload:
+					got, gotAttrs = p.KPayload, p.Attrs
+				case *infoTagPayload:
+					got, gotAttrs = p.KPayload, p.Attrs
 				default:
 					run.Violation("history-pattern:type-changed", fmt.Sprintf("output payload type %T", out.Payload), wit(""))
 					continue
 				}
 				if why := verifyEvent(orig, got, encKey, hmacKey, salt, info, others); why != "" {
 					run.Violation("history-pattern:wrong-key-or-value", why, wit(why))
+				}
+				if withAttrs {
+					// values reached through pointer tags use the same wrapper, salt and info as tagged fields
+					ge, _ := gotAttrs["e"].(string)
+					gh, _ := gotAttrs["h"].(string)
+					if pt, err := cryp.Open(ge, encKey); err != nil || string(pt) != attrE {
+						run.Violation("history-pattern:wrong-key-or-value", fmt.Sprintf("pointer-tagged value /e does not decrypt with the wrapper in force for the event (%v)", err), wit("Taggable map value"))
+					}
+					if want := cryp.Hmac([]byte(attrH), hmacKey, salt, info); gh != want {
+						run.Violation("history-pattern:wrong-key-or-value", fmt.Sprintf("pointer-tagged value /h = %q, HMAC under the key/salt/info in force is %q", gh, want), wit("Taggable map value"))
+					}
+					run.Add("values_verified", 2)
 				}
 				if got.Hm != got.Hm2 {
 					run.Violation("history-pattern:digest-not-deterministic", "equal inputs under equal keys gave different digests", wit(""))
